@@ -165,11 +165,11 @@ def m_unpackb(it, data, ext_hook=None, use_list=True, raw=False, unicode_errors=
             t = S.decode(bytes(data))
         except ValueError as e:
             raise PyRaise(ValueError(str(e)))
-        it.event("unpackb-options", ("use_list", use_list), ("raw", raw), ("unicode_errors", unicode_errors))
+        it.event("unpackb-options", ("use_list", use_list), ("raw", raw), ("unicode_errors", unicode_errors), *sorted((k_, v_) for k_, v_ in kw.items() if it.concrete(v_)))
         return untree(it, t, ext_hook, use_list, unicode_errors if unicode_errors is not None else "strict")
     if not isinstance(data, MPBytes):
         raise Unsupported("unpackb of bytes that were not produced by the msgpack model")
-    it.event("unpackb-options", ("use_list", use_list), ("raw", raw), ("unicode_errors", unicode_errors))
+    it.event("unpackb-options", ("use_list", use_list), ("raw", raw), ("unicode_errors", unicode_errors), *sorted((k_, v_) for k_, v_ in kw.items() if it.concrete(v_)))
     return untree(it, data.tree, ext_hook, use_list, unicode_errors if unicode_errors is not None else "strict")
 
 
